@@ -145,6 +145,13 @@ func (e *reporterEngine) Exec(op string) string {
 		}
 		var err error
 		if w[2] != "0" {
+			// the three entry points for positioned errors must behave alike
+			switch id % 3 {
+			case 1:
+				return errID(h.HandleErrorWithPos(ast.UnknownSpan("f.proto"), idErr{id}))
+			case 2:
+				return errID(h.HandleErrorf(ast.UnknownSpan("f.proto"), "%w", idErr{id}))
+			}
 			err = posErr(id)
 		} else {
 			err = idErr{id}
@@ -155,7 +162,14 @@ func (e *reporterEngine) Exec(op string) string {
 		if h == nil {
 			return "bad-op"
 		}
-		h.HandleWarning(posErr(atoi(w[2])))
+		switch id := atoi(w[2]); id % 3 {
+		case 1:
+			h.HandleWarningWithPos(ast.UnknownSpan("f.proto"), idErr{id})
+		case 2:
+			h.HandleWarningf(ast.UnknownSpan("f.proto"), "%w", idErr{id})
+		default:
+			h.HandleWarning(posErr(id))
+		}
 		return "ok"
 	case len(w) == 2 && w[0] == "error":
 		h := e.handler(atoi(w[1]))
